@@ -31,6 +31,9 @@ def near_miss_text(rng):
 def entry_points(t):
     c = dc.DebianCopyright.from_text(t)
     a = (c.to_dict(), c.to_dict(with_lines=True), c.dumps(), c.is_valid(), c.is_valid(strict=True))
+    # the per-paragraph queries are lenient entry points too
+    per = [(p.to_dict(with_lines=True), p.dumps(), p.is_empty(), p.has_extra_data(), tuple(p.get_first_last_line_numbers()),
+            [p.get_field_line_numbers(n) for n in list(p.line_numbers_by_field)]) for p in c.paragraphs]
     # observing an object (validity, rendering, dictionary form) in any order leaves it as it was
     kinds = [type(p).__name__ for p in c.paragraphs]
     a2 = (c.to_dict(), c.to_dict(with_lines=True), c.dumps(), c.is_valid(), c.is_valid(strict=True))
@@ -41,7 +44,7 @@ def entry_points(t):
     b = list(debcon.get_paragraphs_data(t))
     d = debcon.get_paragraph_data(t)
     e = _d822.groups_t(deb822.get_paragraphs_as_field_groups(t))
-    return repr((a, b, d, e))
+    return repr((a, per, b, d, e))
 
 
 def p_total(t):
